@@ -248,7 +248,7 @@ def finalize(ctx: Ctx, tier: str, seed: int, t0: float, level_text: str,
     ev = {
         'property_id': prop, 'tier': tier, 'seed': seed, 'level': 'other',
         'coverage': coverage,
-        'assumptions': ctx.assumptions + ['assert statements of the analysed code hold: their failing edge is not followed (DESIGN 2.2)'],
+        'assumptions': ctx.assumptions + ['assert statements of the analysed code hold: neither their failing edge nor an exception out of evaluating their test is followed (DESIGN 2.2)'],
         'wall_s': round(time.time() - t0, 3),
         'violations': len(new_violations),
     }
